@@ -5,7 +5,7 @@ index; `data` is re-versioned by reserve) are compared with Vec's specification;
 growth and release go through the stored functions with (data, len, capacity) in order; element reads/writes pair with len -/+ 1.
 Each operation preserving `len <= capacity` and `[0, len) initialised` gives the statement for every finite sequence.
 """
-from lib import facts, mir, report, ledger, affine
+from lib import facts, mir, report, ledger, affine, sem
 from lib.affine import Aff, Opaque
 
 V = "cglue::vec::"
@@ -218,8 +218,23 @@ def run(tier):
                 else:
                     ok = args == [("field", ("arg", 1), "data"), ("field", ("arg", 1), "len"), ("field", ("arg", 1), "capacity")]
             ck.ob("R-from-raw-parts-positional", "cglue/" + name, ok, "%s must pass (data, len, capacity) to Vec::from_raw_parts in that order" % name)
+    ev = sem.Evaluator(fns, {}, inline=lambda p: p in fns)
     td = fns.get("<cglue::vec::TempVec<'a, T> as std::ops::Drop>::drop")
-    if ck.require(td is not None, "Drop for TempVec"):
+    sem_done = set()
+    if td is not None:
+        me = ("sym", "self")
+        outs = ev.run(td, [me])
+        if len(outs) == 1 and outs[0].kind == "ret":
+            wrote = {}
+            for (root, projs), val in outs[0].state.over.items():
+                if root[0] == "ext" and sem.strip(root[1]) == ("fld", me, 1, "1") and len(projs) == 1 and projs[0][0] == "f":
+                    v = sem.strip(val)
+                    own = sem.contains(v, lambda x: x == ("fld", me, 0, "0") or (x[0] == "ref" and x[1] == ("ext", me) and tuple(x[2][:1]) == (("f", 0, "0"),)))
+                    wrote[projs[0][2]] = v[2][1].split("::")[-1] if v[0] == "opq" and v[2][0] == "call" and own else sem.fmt(v)
+            ck.ob("R-tempvec-writes-back", "cglue/TempVec::drop", wrote == {"data": "as_mut_ptr", "len": "len", "capacity": "capacity"},
+                  "TempVec::drop must write the Vec's as_mut_ptr/len/capacity back to data/len/capacity: %s" % wrote, sample={"writes": wrote})
+            sem_done.add("tempvec")
+    if "tempvec" not in sem_done and ck.require(td is not None, "Drop for TempVec"):
         body = mir.Body(td)
         wrote = {}
         for bi in sorted(body.live_blocks()):
@@ -230,7 +245,33 @@ def run(tier):
         ck.ob("R-tempvec-writes-back", "cglue/TempVec::drop", wrote == {"data": "as_mut_ptr", "len": "len", "capacity": "capacity"},
               "TempVec::drop must write the Vec's as_mut_ptr/len/capacity back to data/len/capacity: %s" % wrote, sample={"writes": wrote})
     fv = fns.get("<cglue::vec::CVec<T> as std::convert::From<std::vec::Vec<T>>>::from")
-    if ck.require(fv is not None, "From<Vec> for CVec"):
+    if fv is not None:
+        vec = ("sym", "vec")
+        outs = ev.run(fv, [vec])
+        if len(outs) == 1 and outs[0].kind == "ret" and sem.strip(outs[0].ret)[0] == "agg":
+            o = outs[0]
+            r = sem.strip(o.ret)
+            names = [fl["name"] for fl in [a for a in f.adts("cglue-lib") if a["path"] == V + "CVec"][0]["variants"][0]["fields"]]
+            vals = dict(zip(names, r[4]))
+
+            def getter(v):
+                v = sem.strip(v)
+                return v[2][1].split("::")[-1] if v[0] == "opq" and v[2][0] == "call" and sem.contains(v, lambda x: x == vec) else None
+
+            def fnval(v):
+                v = sem.strip(v)
+                if v[0] == "agg" and v[3] == "Some" and v[4]:
+                    v = sem.strip(v[4][0])
+                return v[1] if v[0] == "fn" else None
+            disarm = [e for e in o.calls() if (e[1] == "std::mem::forget" or e[1].endswith("ManuallyDrop::<T>::new")) and sem.strip(e[2][0]) == vec]
+            dropped = [e for e in o.effects if e[0] == "drop" and sem.strip(e[1]) == vec]
+            ok = getter(vals.get("data")) == "as_mut_ptr" and getter(vals.get("len")) == "len" and getter(vals.get("capacity")) == "capacity" \
+                and fnval(vals.get("drop_fn")) == V + "cglue_drop_vec" and fnval(vals.get("reserve_fn")) == V + "cglue_reserve_vec" \
+                and len(disarm) == 1 and not dropped
+            ck.ob("R-from-vec-captures-raw-parts", "cglue/CVec::from(Vec)", ok,
+                  "From<Vec> must store as_mut_ptr/len/capacity of the vector, its drop and reserve functions, and disarm the vector exactly once: %s" % o)
+            sem_done.add("fromvec")
+    if "fromvec" not in sem_done and ck.require(fv is not None, "From<Vec> for CVec"):
         body = mir.Body(fv)
         ret = body.origin_local(0)
         ok = ret[0] == "agg"
